@@ -1,4 +1,5 @@
 import ClusterVerif.Spec.C08
+import ClusterVerif.Model.C08Add
 import ClusterVerif.Gen.C08
 import Driver.Parse
 import Driver.C08Wire
@@ -29,27 +30,36 @@ def unStr (tok : String) : String := String.ofList (unpctChars (tok.drop 1).toSt
 
 /-! ## predictions -/
 
-/-- AddParams.ToQueryString → AddParamsFromQuery: the pin options through the query model, PinUpdate forced
-    to undefined, empty chunker/hash replaced by the defaults, layout and format validated -/
+/-- AddParams.ToQueryString → AddParamsFromQuery through the field-level model `Model/C08Add.lean`
+    (`Add.addRoundtrip`: pin options through the typed query model, `PinUpdate` cleared, every other parameter through
+    its text form — `%t`/ParseBool, `%d`/Atoi — the defaults, the layout/format validation, the CIDv0 rule and the
+    raw-leaves default in source order). A string the round trip leaves unchanged keeps its input token. -/
 def predictAddParams (kvs : KVs) : Option (Res KVs) := do
   let po ← parseOpts kvs "PinOptions."
-  let layout ← getF kvs "IPFSAddParams.Layout"
-  let format ← getF kvs "Format"
-  if !(["~", "~trickle", "~balanced"].contains layout) || !(["~", "~car", "~unixfs"].contains format) then
-    return .decErr
-  -- ToQueryString always writes cid-version; an explicit 0 with a hash other than sha2-256 is refused (6355d34).
-  -- An empty hash parameter leaves the default sha2-256.
-  let hash ← getF kvs "IPFSAddParams.HashFun"
-  if hash != "~" && !sha256Hash kvs && cidVersion0 kvs then
-    return .decErr
-  match queryRoundtrip po with
-  | .ok po' =>
-    let rest := (kvs.filter fun kv => !kv.1.startsWith "PinOptions.").map fun kv =>
-      if kv.1 == "IPFSAddParams.Chunker" && kv.2 == "~" then (kv.1, "~size%2D262144")
-      else if kv.1 == "IPFSAddParams.HashFun" && kv.2 == "~" then (kv.1, "~sha2%2D256")
-      else kv
-    return .ok (showOpts { po' with pinUpdate := none } "PinOptions." ++ rest)
-  | _ => return .decErr
+  let b := fun (n : String) => (getF kvs n).bind fun t => if t == "1" then some true else if t == "0" then some false else none
+  let s := fun (n : String) => (getF kvs n).map unStr
+  let x : Add.AddX :=
+    { local_ := ← b "Local", recursive := ← b "Recursive", hidden := ← b "Hidden", wrap := ← b "Wrap", shard := ← b "Shard",
+      streamChannels := ← b "StreamChannels", format := ← s "Format", layout := ← s "IPFSAddParams.Layout",
+      chunker := ← s "IPFSAddParams.Chunker", rawLeaves := ← b "IPFSAddParams.RawLeaves", progress := ← b "IPFSAddParams.Progress",
+      cidVersion := ← (← getF kvs "IPFSAddParams.CidVersion").toInt?, hashFun := ← s "IPFSAddParams.HashFun",
+      noCopy := ← b "IPFSAddParams.NoCopy" }
+  let bt := fun (v : Bool) => if v then "1" else "0"
+  let st := fun (path v : String) =>
+    if some v == s path then (getF kvs path).getD "~"
+    else if v == "size-262144" then "~size%2D262144" else if v == "sha2-256" then "~sha2%2D256" else "~" ++ v
+  match Add.addRoundtrip { opts := po, x := x } with
+  | .ok r =>
+    return .ok (showOpts r.opts "PinOptions." ++
+      [ ("Local", bt r.x.local_), ("Recursive", bt r.x.recursive), ("Hidden", bt r.x.hidden), ("Wrap", bt r.x.wrap),
+        ("Shard", bt r.x.shard), ("StreamChannels", bt r.x.streamChannels), ("Format", st "Format" r.x.format),
+        ("IPFSAddParams.Layout", st "IPFSAddParams.Layout" r.x.layout),
+        ("IPFSAddParams.Chunker", st "IPFSAddParams.Chunker" r.x.chunker),
+        ("IPFSAddParams.RawLeaves", bt r.x.rawLeaves), ("IPFSAddParams.Progress", bt r.x.progress),
+        ("IPFSAddParams.CidVersion", toString r.x.cidVersion),
+        ("IPFSAddParams.HashFun", st "IPFSAddParams.HashFun" r.x.hashFun), ("IPFSAddParams.NoCopy", bt r.x.noCopy) ])
+  | .encErr => return .encErr
+  | .decErr => return .decErr
 
 /-- what the model expects for a round-trip case; `none` = the case cannot be interpreted -/
 def predictRt (rec : String) (f : Fmt) (kvs : KVs) : Option (Res KVs) :=
